@@ -329,6 +329,17 @@ def keepArgs (rec : String → Option Val → Val → Except Err Val) (params : 
         | .optScalar _ => some (e.1, y)
         | _ => some (e.1, e.2))
 
+/-- the previous value of a parameter that has not been set so far: when the parameter's own default is a class spec (a
+    `lazy_instance(Sub, …)` default; the environment holds it completed with the defaults of its class) the parse starts
+    from that spec — a short form without class_path keeps the DEFAULT's class, not the declared type -/
+def paramPrev (p : IParam) (acc : KV) : Option Val :=
+  match getKV p.name acc with
+  | some v => some v
+  | none =>
+    match p.dflt with
+    | some (.spec (some cp) ia dk) => some (.spec (some cp) ia dk)
+    | _ => none
+
 /-- `parser.parse_object(init_args, cfg_base=prev_init_args)`: every key must be a parameter of THIS class -/
 def mergeArgs (rec : String → Option Val → Val → Except Err Val) (params : List IParam) : KV → KV → Except Err KV
   | [], acc => .ok acc
@@ -336,7 +347,7 @@ def mergeArgs (rec : String → Option Val → Val → Except Err Val) (params :
     match findParam params k with
     | none => .error .unknownKey
     | some p =>
-      match adaptValueWith rec p.ty (getKV k acc) x with
+      match adaptValueWith rec p.ty (paramPrev p acc) x with
       | .error e => .error e
       | .ok y => mergeArgs rec params r (setKV k y acc)
 
@@ -397,9 +408,27 @@ def adapt (E : ClassEnv) : Nat → String → Option Val → Val → Except Err 
 
 /-! ### the end of the parse: defaults and required parameters of the named class -/
 
-/-- one parameter after the other, in signature order: the stored value (class-typed ones completed by `rec`),
-    else the default, else the parse fails -/
-def finalizeArgsWith (rec : Val → Except Err Val) (ia : KV) : List IParam → Except Err KV
+/-- the init_args of a parameter's own spec default (`lazy_instance(Sub, …)`, completed) -/
+def defaultIa (p : IParam) : KV :=
+  match p.dflt with
+  | some (.spec (some _) ia _) => ia
+  | _ => []
+
+/-- what the spec default of the ENCLOSING parameter offers for a scalar parameter that has no value: used when the type
+    accepts it (the default's init_args act as defaults of whatever class the nested value finally names) -/
+def fallbackValue (fallback : KV) (p : IParam) : Option Val :=
+  match getKV p.name fallback with
+  | none => none
+  | some v =>
+    match p.ty with
+    | .scalar t => coerceScalar t v
+    | .optScalar t => if isNone v then some v else coerceScalar t v
+    | _ => none
+
+/-- one parameter after the other, in signature order: the stored value (class-typed ones completed by `rec`, which gets
+    the init_args of the parameter's own spec default), else what the enclosing default offers, else the default, else the
+    parse fails -/
+def finalizeArgsWith (rec : KV → Val → Except Err Val) (fallback : KV) (ia : KV) : List IParam → Except Err KV
   | [] => .ok []
   | p :: ps =>
     let one : Except Err Val :=
@@ -416,15 +445,18 @@ def finalizeArgsWith (rec : Val → Except Err Val) (ia : KV) : List IParam → 
            (match coerceScalar t x with
             | some y => .ok y
             | none => .error .illTyped)
-         | _ => if isNone x then .ok x else rec x)
+         | _ => if isNone x then .ok x else rec (defaultIa p) x)
       | none =>
-        (match p.dflt with
-         | some d => .ok d
-         | none => .error .missingRequired)
+        (match fallbackValue fallback p with
+         | some y => .ok y
+         | none =>
+           (match p.dflt with
+            | some d => .ok d
+            | none => .error .missingRequired))
     match one with
     | .error e => .error e
     | .ok y =>
-      match finalizeArgsWith rec ia ps with
+      match finalizeArgsWith rec fallback ia ps with
       | .error e => .error e
       | .ok rest => .ok ((p.name, y) :: rest)
 
@@ -455,23 +487,26 @@ def mapKVE (f : Val → Except Err Val) : KV → Except Err KV
       | .error e => .error e
       | .ok ys => .ok ((k, y) :: ys)
 
-def finalize (E : ClassEnv) : Nat → Val → Except Err Val
-  | 0, _ => .error .fuel
-  | fuel + 1, v =>
+def finalizeWith (E : ClassEnv) : Nat → KV → Val → Except Err Val
+  | 0, _, _ => .error .fuel
+  | fuel + 1, fallback, v =>
     match v with
     | .spec (some cp) ia dk =>
-      match finalizeArgsWith (finalize E fuel) ia (paramsOf E cp) with
+      match finalizeArgsWith (finalizeWith E fuel) fallback ia (paramsOf E cp) with
       | .error e => .error e
       | .ok ia' => .ok (.spec (some cp) ia' dk)
     | .lst xs =>
-      match mapValsE (finalize E fuel) xs with
+      match mapValsE (finalizeWith E fuel []) xs with
       | .error e => .error e
       | .ok ys => .ok (.lst ys)
     | .dct kvs =>
-      match mapKVE (finalize E fuel) kvs with
+      match mapKVE (finalizeWith E fuel []) kvs with
       | .error e => .error e
       | .ok ys => .ok (.dct ys)
     | other => .ok other
+
+/-- the end of the parse of an argument (no enclosing default) -/
+def finalize (E : ClassEnv) (fuel : Nat) (v : Val) : Except Err Val := finalizeWith E fuel [] v
 
 /-- the sources of one argument, in order -/
 def adaptSeq (E : ClassEnv) (fuel : Nat) (base : String) : Option Val → List Val → Except Err (Option Val)
@@ -606,6 +641,38 @@ end
 
 /-- the constructor calls of `instantiate_classes` on one stored value, in order -/
 def instantiate (v : Val) : List Ctor := (inst v []).1
+
+/-! ### class instantiators (`add_instantiator`, `_get_instantiators`, `ClassInstantiator.__call__`) -/
+
+structure Instantiator where
+  tag : String
+  /-- the key `(class_type, subclasses)` -/
+  cls : String
+  subclasses : Bool
+deriving DecidableEq, Repr
+
+def sameKey (a b : Instantiator) : Bool := a.cls == b.cls && a.subclasses == b.subclasses
+
+/-- `add_instantiator(fn, class_type, subclasses, prepend)`: an entry with the same key is replaced -/
+def addInstantiator (reg : List Instantiator) (i : Instantiator) (prepend : Bool) : List Instantiator :=
+  let rest := reg.filter (fun j => !sameKey j i)
+  if prepend then i :: rest else rest ++ [i]
+
+/-- `_get_instantiators`: the parser's OWN instantiators first, then those of the parent parser whose key it does not have,
+    then those of the context whose key is not there yet -/
+def getInstantiators (own parent ctx : List Instantiator) : List Instantiator :=
+  let a := own ++ parent.filter (fun k => !(own.any (sameKey k)))
+  a ++ ctx.filter (fun k => !(a.any (sameKey k)))
+
+/-- `class_type is cls or (subclasses and is_subclass(class_type, cls))` -/
+def instMatches (E : ClassEnv) (cls : String) (i : Instantiator) : Bool :=
+  i.cls == cls || (i.subclasses && isSubclass E cls i.cls)
+
+/-- `ClassInstantiator.__call__`: the first matching entry, else the default instantiator -/
+def pickInstantiator (E : ClassEnv) (l : List Instantiator) (cls : String) : String :=
+  match l.find? (instMatches E cls) with
+  | some i => i.tag
+  | none => "default"
 
 /-! ### short forms -/
 
